@@ -82,7 +82,9 @@ _PURE = {'len': len, 'int': int, 'float': float, 'str': str, 'bool': bool, 'abs'
          'isinstance': None, 'type': None, 'set': set, 'frozenset': frozenset, 'tuple': tuple,
          'list': list, 'min': min, 'max': max}
 _STR_METHODS = {'startswith', 'endswith', 'find', 'upper', 'lower', 'strip', 'title',
-                'index', 'count', 'zfill', 'is_integer'}
+                'index', 'count', 'zfill', 'is_integer', 'replace', 'partition', 'rpartition',
+                'split', 'rsplit', 'removeprefix', 'removesuffix', 'lstrip', 'rstrip', 'join',
+                'isdigit', 'isalpha'}
 
 
 class Outcome:
